@@ -1489,6 +1489,10 @@ def _arg_minmax_common(
         raise ValueError(f"`axis={axis}` is out of bounds for array of dimension {x.ndim}.")
     if x.ndim == 0:
         raise ValueError("Input array must be at least 1-D, but it's 0-D.")
+    if axis is not None:
+        axis = normalize_axis(axis, x.ndim)
+    if x.size == 0 if axis is None else x.shape[axis] == 0:
+        raise ValueError(f"attempt to get arg{mode} of an empty sequence")
 
     # If `axis` is None then we need to flatten the input array and memorize
     # the original dimensionality for the final reshape operation.
@@ -1499,6 +1503,7 @@ def _arg_minmax_common(
         axis = 0
 
     # A 1-D array must have one more singleton dimension.
+    input_1d = axis_none_original_ndim is None and x.ndim == 1
     if axis == 0 and x.ndim == 1:
         x = x[:, None]
 
@@ -1513,7 +1518,7 @@ def _arg_minmax_common(
     new_shape = tuple(new_shape)
 
     x = x.transpose(new_transpose)
-    x = x.reshape((new_shape[0], np.prod(new_shape[1:])))
+    x = x.reshape((new_shape[0], reduce(operator.mul, new_shape[1:], 1)))
 
     # Compute max/min arguments
     result_indices, result_data = _compute_minmax_args(
@@ -1537,8 +1542,12 @@ def _arg_minmax_common(
     # If `axis=None` we need to reshape flattened array into original dimensionality.
     if axis_none_original_ndim is not None:
         result = result.reshape([1 for _ in range(axis_none_original_ndim)])
+        return result if keepdims else result.squeeze()
 
-    return result if keepdims else result.squeeze()
+    if input_1d:
+        result = result.reshape((1,))
+
+    return result if keepdims else result.squeeze(axis)
 
 
 def matrix_transpose(x, /):
